@@ -258,8 +258,32 @@ def const_required_elsewhere(doc):
     return has(doc, pred)
 
 
+def nullable_array(s, pos):
+    return isinstance(s.get("type"), list) and "array" in s["type"] and "null" in s["type"]
+
+
+def required_nullable_array(doc):
+    flat = ss.flatten(doc)
+
+    def walk(s):
+        if isinstance(s, dict):
+            req = set(s.get("required", []) if isinstance(s.get("required"), list) else [])
+            for p, ps in (s.get("properties") or {}).items():
+                if p in req and isinstance(ps, dict) and nullable_array(ps, None):
+                    return True
+            return any(walk(v) for v in s.values())
+        if isinstance(s, list):
+            return any(walk(v) for v in s)
+        return False
+    return walk(flat)
+
+
 def in_known_class(doc, kind, opts):
     text = json.dumps(doc)
+    if opts.get("strict_nullable") and required_nullable_array(doc):
+        return True  # C03-strict-nullable-required-array
+    if kind == TD and has(doc, nullable_array):
+        return True  # C03-typeddict-nullable-array
     if kind in (DC, TD) and renamed_members(doc):
         return True  # C03-dataclass-renamed-member
     if kind in (DC, TD) and ('"const"' in text):
